@@ -2,6 +2,7 @@ package props
 
 import (
 	"fmt"
+	"io"
 	"math/rand"
 	"net"
 	"sync"
@@ -36,7 +37,177 @@ type c14Reader struct {
 	errs []string
 }
 
+// runC14TCP: the same promise for an RFC 6062 allocation (client over TCP, AllocateTCP): for
+// virtual hours the relay keeps accepting permitted peers and dialling out, the server keeps
+// exactly one allocation, and Close removes it.
+func runC14TCP(t *testing.T, rng *rand.Rand, rec *sim.Rec, tier string, caseNo int) {
+	dur := 3 * time.Hour
+	type sc struct{ perm, life time.Duration }
+	conf := pick(rng, []sc{{0, 0}, {0, 0}, {2*time.Minute + 15*time.Second, 2 * time.Minute}, {5 * time.Minute, 45 * time.Minute}, {3 * time.Minute, 5 * time.Minute}, {30 * time.Minute, 2 * time.Hour}})
+	cfg := sim.Config{
+		Realm: "verif.test", Users: map[string]string{"alice": "pw-a"},
+		PermTimeout: conf.perm, Lifetime: conf.life,
+		TCPListeners: []*net.TCPAddr{{IP: sim.ServerIP4, Port: 3478}},
+	}
+	w, err := sim.NewWorld(cfg, rec, rng, true)
+	if err != nil {
+		t.Fatal(err)
+	}
+	defer w.Shutdown()
+	w.Net.LogSends = false
+	ctrl, err := w.Net.DialTCP(net.IPv4(10, 1, 1, 1).To4(), 0, w.ServerTCP[0].TCPAddr())
+	if err != nil {
+		t.Fatal(err)
+	}
+	logs := sim.NewLogSink()
+	vn := &simnet.VNet{N: w.Net, HostIP4: net.IPv4(10, 1, 1, 1).To4()}
+	cl, err := turn.NewClient(&turn.ClientConfig{
+		STUNServerAddr: "10.0.0.1:3478", TURNServerAddr: "10.0.0.1:3478", Conn: turn.NewSTUNConn(ctrl),
+		Username: "alice", Password: "pw-a", Realm: "verif.test", Net: vn, LoggerFactory: logs,
+	})
+	if err != nil {
+		t.Fatal(err)
+	}
+	defer cl.Close()
+	if err := cl.Listen(); err != nil {
+		t.Fatal(err)
+	}
+	alloc, err := cl.AllocateTCP()
+	if err != nil {
+		rec.Violate("client-api-error", "allocate-tcp", "AllocateTCP failed: %v", err)
+
+		return
+	}
+	relay := alloc.Addr().String()
+	ra, _ := net.ResolveTCPAddr("tcp", relay)
+	pattern := pick(rng, []string{"continuous", "idle-7m", "idle-40m", "mixed"})
+	peerIP := net.IPv4(10, 2, 0, 1).To4()
+	// The peer is dialled first: DialTCP installs the permission the client then keeps refreshed
+	// (a permission made with Client.CreatePermission is a one-off request the client does not track).
+	closed := false
+	defer func() {
+		if !closed {
+			_ = alloc.Close()
+		}
+	}()
+	start := time.Now()
+	probes := 0
+	echo := func(a, b net.Conn, what string) bool {
+		msg := []byte(fmt.Sprintf("probe-%d-%s", probes, what))
+		for dir := 0; dir < 2; dir++ {
+			src, dst := a, b
+			if dir == 1 {
+				src, dst = b, a
+			}
+			if _, err := src.Write(msg); err != nil {
+				rec.Violate("probe-lost-to-peer", "tcp/"+what, "write on a %s connection failed at +%v: %v", what, time.Since(start).Round(time.Second), err)
+
+				return false
+			}
+			got := make([]byte, len(msg))
+			_ = dst.SetReadDeadline(time.Now().Add(5 * time.Second))
+			if _, err := io.ReadFull(dst, got); err != nil || string(got) != string(msg) {
+				rec.Violate("probe-wrong", "tcp/"+what, "%s connection at +%v: sent %q, received %q (%v)", what, time.Since(start).Round(time.Second), msg, got, err)
+
+				return false
+			}
+			rec.Ev("probes-delivered")
+		}
+
+		return true
+	}
+	probe := func() bool {
+		probes++
+		if n := w.Srv.AllocationCount(); n != 1 {
+			rec.Violate("allocation-vanished", "tcp/"+pattern, "AllocationCount=%d at +%v while the client's TCP allocation is open (server lifetime %v)", n, time.Since(start).Round(time.Second), conf.life)
+
+			return false
+		}
+		if probes == 1 || rng.Intn(2) == 0 {
+			l, err := w.Net.ListenTCP(peerIP, 8000+probes%1000)
+			if err != nil {
+				t.Fatal(err)
+			}
+			defer l.Close() //nolint:errcheck
+			acc := make(chan net.Conn, 1)
+			go func() {
+				if c, err := l.Accept(); err == nil {
+					acc <- c
+				}
+			}()
+			dc, err := alloc.DialTCP("tcp", nil, l.TCPAddr())
+			if err != nil {
+				rec.Violate("probe-lost-to-peer", "tcp/dial", "DialTCP through the relay failed at +%v (pattern %s, server perm=%v lifetime=%v): %v", time.Since(start).Round(time.Second), pattern, conf.perm, conf.life, err)
+
+				return false
+			}
+			defer dc.Close() //nolint:errcheck
+			select {
+			case pe := <-acc:
+				defer pe.Close() //nolint:errcheck
+
+				return echo(dc, pe, "dialed")
+			case <-time.After(5 * time.Second):
+				rec.Violate("probe-lost-to-peer", "tcp/dial", "DialTCP returned but the peer accepted nothing at +%v", time.Since(start).Round(time.Second))
+
+				return false
+			}
+		}
+		pe, err := w.Net.DialTCP(peerIP, 0, ra)
+		if err != nil {
+			rec.Violate("probe-lost-to-client", "tcp/accept", "the permitted peer cannot reach the relayed address %s at +%v (pattern %s, server perm=%v lifetime=%v): %v", relay, time.Since(start).Round(time.Second), pattern, conf.perm, conf.life, err)
+
+			return false
+		}
+		defer pe.Close() //nolint:errcheck
+		_ = alloc.SetDeadline(time.Now().Add(10 * time.Second))
+		ac, err := alloc.AcceptTCP()
+		if err != nil {
+			rec.Violate("probe-lost-to-client", "tcp/accept", "AcceptTCP did not deliver the permitted peer's connection at +%v (pattern %s, server perm=%v lifetime=%v): %v", time.Since(start).Round(time.Second), pattern, conf.perm, conf.life, err)
+
+			return false
+		}
+		defer ac.Close() //nolint:errcheck
+
+		return echo(ac, pe, "accepted")
+	}
+	ok := probe()
+	for ok && time.Since(start) < dur {
+		var gap time.Duration
+		switch pattern {
+		case "continuous":
+			gap = time.Duration(10+rng.Intn(50)) * time.Second
+		case "idle-7m":
+			gap = 7 * time.Minute
+		case "idle-40m":
+			gap = pick(rng, []time.Duration{40 * time.Minute, 30 * time.Second})
+		default:
+			gap = pick(rng, []time.Duration{2 * time.Second, 45 * time.Second, 7 * time.Minute, 61 * time.Minute})
+		}
+		time.Sleep(gap)
+		ok = probe()
+	}
+	rec.FP("run-tcp/%s/perm=%v/life=%v", pattern, conf.perm, conf.life)
+	rec.EvN("virtual-minutes", int(time.Since(start)/time.Minute))
+	if !ok {
+		return
+	}
+	closed = true
+	_ = alloc.Close()
+	time.Sleep(20 * time.Second)
+	if n := w.Srv.AllocationCount(); n != 0 {
+		rec.Violate("allocation-after-close", "tcp/"+pattern, "AllocationCount=%d twenty seconds after TCPAllocation.Close at +%v", n, time.Since(start).Round(time.Second))
+	}
+	rec.FP("close-tcp")
+	rec.SetSample(map[string]any{"kind": "tcp-allocation", "pattern": pattern, "virtual_duration": dur.String(), "probes": probes, "perm_timeout": conf.perm.String(), "lifetime": conf.life.String()})
+}
+
 func runC14(t *testing.T, rng *rand.Rand, rec *sim.Rec, tier string, caseNo int) {
+	if caseNo%7 == 5 {
+		runC14TCP(t, rng, rec, tier, caseNo)
+
+		return
+	}
 	dur := 3 * time.Hour
 	if tier == "thorough" && caseNo%25 == 0 {
 		dur = 48 * time.Hour
